@@ -20,7 +20,7 @@ def plan(tier):
                        "Snapping: returned cell lies on the returned link (finite candidate set, enumeration by forking -- weaker than the rest).",
         "entry_points": ["OSMRoadNetwork.route", "osm_roadnetwork_ops.resolve_route_src_dst_positions", "route_from_nx_path", "RoadNetwork.position_from_geoid",
                          "OSMRoadNetworkLinkHelper.link_by_geoid", "HaversineRoadNetwork.route", "HaversineRoadNetwork.link_from_link_id"],
-        "bounds": ["as C14; positions: start / middle / end cell of the origin and destination link", "snapping: 28 candidate cells per graph (on links, next to links, 40 rings away)",
+        "bounds": ["as C14; positions: start / middle / end cell of the origin and destination link", "snapping: up to 48 candidate cells per graph (start/middle/end of every link, beside links, 40 rings away)",
                    "haversine: the 6 arena cells"],
         "outside": ["snapping for arbitrary locations and the shipped Denver graph (cKDTree and h3 are C: no symbolic content)"],
         "stubs": C.STUBS_COMMON[:1],
